@@ -34,6 +34,9 @@ CONSTANTS Mode,        \* "rotate": (key length, fingerprint) is a function of (
           TamperMode,  \* which cases get single-bit tampering at design level: "none" | "singles" | "all"
           TamperVariants,    \* variants that are tampered
           TamperAllVariants, \* in mode "singles": variants of the all-attributes messages that are tampered too
+          HoldMode,    \* which cases get the receive-buffer life cycle after decoding: "none" | "singles" | "all"
+          Aliased,     \* attributes whose decoded value refers to the receive buffer instead of being copied out
+                       \* of it ({} = the intended decoder; StunAlias.cfg: {"Data"} = a "zero copy" decoder)
           HelperKeyMax,\* the public HMAC helper is called with keys of length 0..HelperKeyMax
           HelperTexts  \* ... and texts of these lengths
 
@@ -42,9 +45,14 @@ VARIABLES c,     \* the case: [sub, v, klen, fp]   (or the helper pseudo-case)
           st,    \* "new" | "enc" | "done"
           q,     \* last query: [a |-> "Decode", key] | [a |-> "Tamper", pos, bit, key] | [a |-> "Hmac", kl, tl] | ...
           res,   \* its result: [dec |-> what Decode returned, fr |-> Frame of the bytes it was given]
+          rb,    \* the receive buffer the held message was decoded from: "none" (nothing held) | "same" (still holds
+                 \* the datagram) | "reused" (overwritten in place by another datagram) | "freed"
+          held,  \* the decoded message as its holder stores it: attributes [n, x, b, ref]; ref = 0: b is a copy,
+                 \* ref > 0: the value is the Len(b) cells of the receive buffer starting at cell ref
+          obs,   \* what the holder read back last (Observe)
           hist
 
-mvars == <<c, w, st, q, res>>
+mvars == <<c, w, st, q, res, rb, held, obs>>
 vars  == <<mvars, hist>>
 
 (* ------------------------------------------------------------------------ *)
@@ -313,9 +321,16 @@ NoRes == [dec |-> [ok |-> "none"], fr |-> NoFrame]
 Helper == [sub |-> {}, v |-> 0, klen |-> 0, fp |-> FALSE, helper |-> TRUE]
 AsCase(cs) == [sub |-> cs.sub, v |-> cs.v, klen |-> cs.klen, fp |-> cs.fp, helper |-> FALSE]
 
+NoObs == [type |-> 0, id |-> <<>>, a |-> <<>>]
+Holdable(cs) ==
+    CASE HoldMode = "none"    -> FALSE
+      [] HoldMode = "singles" -> cs.sub \notin Pairs
+      [] OTHER                -> TRUE
+
 Init ==
     /\ c \in {AsCase(cs) : cs \in {x \in Cases : InSpace(x) \/ Tamperable(x)}} \cup {Helper}
     /\ w = NoWire /\ st = "new" /\ q = NoQ /\ res = NoRes /\ hist = <<>>
+    /\ rb = "none" /\ held = <<>> /\ obs = NoObs
 
 Log(r) == hist' = Append(hist, r)
 IsCase == ~c.helper
@@ -325,27 +340,71 @@ Encode ==
     /\ st' = "enc"
     /\ w' = Wire(c)
     /\ Log([a |-> "Encode"])
-    /\ UNCHANGED <<c, q, res>>
+    /\ UNCHANGED <<c, q, res, rb, held, obs>>
 
 \* keys a decoder may try: the sender's, another one, none (no verification requested)
 DecKeys == {"same", "other", "none"}
 KeyName(cs, k) == CASE k = "same" -> KeyOf(cs) [] k = "other" -> "o" [] OTHER -> ""
 
+\* The decoded message outlives the datagram: its holder keeps it while the receive buffer it was decoded
+\* from is refilled with the next datagram or destroyed (QXmppUdpTransport::readyRead and
+\* QXmppTurnAllocation::readyRead reuse one QByteArray per socket).  ValOff(m, i) = first cell of the value
+\* of the i-th attribute in Enc(m, ..).c.
+RECURSIVE ValOff(_, _)
+ValOff(m, i) == IF i = 1 THEN 25 ELSE ValOff(m, i - 1) + Len(Tlv(Code[m.a[i-1].n], AttrVal(m.a[i-1], m.id)))
+HeldOf(m) == [i \in 1..Len(m.a) |->
+                [n |-> m.a[i].n, x |-> m.a[i].x, b |-> m.a[i].b,
+                 ref |-> IF m.a[i].n \in Aliased /\ Kind[m.a[i].n] \in {"bytes", "fix8", "u32"} THEN ValOff(m, i) ELSE 0]]
+\* the buffer after the next datagram (any other bytes of the same size) was written into it
+Refilled(cells) == [i \in 1..Len(cells) |-> IF IsByte(cells[i]) THEN 255 - cells[i] ELSE Junk]
+Content == CASE rb = "same" -> w.c [] rb = "reused" -> Refilled(w.c) [] OTHER -> <<>>
+ReadBack(h) ==
+    IF h.ref = 0 THEN h.b
+    ELSE IF rb = "freed" THEN [i \in 1..Len(h.b) |-> Junk]        \* whatever is in freed memory
+    ELSE SubSeq(Content, h.ref, h.ref + Len(h.b) - 1)
+
 \* (the effect is separate from the guard: StunTrace replays several queries on one encoded message)
 DecodeEff(k) ==
     /\ st' = "done"
     /\ q' = [a |-> "Decode", key |-> k]
-    /\ res' = [dec |-> Dec(w, KeyName(c, k)), fr |-> Frame(w.c)]
+    /\ LET d == Dec(w, KeyName(c, k))
+           keep == k = "same" /\ Holdable(c) /\ d.ok = "acc" /\ [type |-> d.type, id |-> d.id, a |-> d.a] = Msg(c)
+       IN /\ res' = [dec |-> d, fr |-> Frame(w.c)]
+          /\ rb' = IF keep THEN "same" ELSE "none"
+          /\ held' = IF keep THEN HeldOf(Msg(c)) ELSE <<>>
+    /\ obs' = NoObs
     /\ Log([a |-> "Decode", key |-> k])
     /\ UNCHANGED <<c, w>>
 Decode(k) == IsCase /\ st = "enc" /\ DecodeEff(k)
+
+\* the life cycle of the receive buffer while a decoded message is held: refilled in place, then read back;
+\* destroyed, then read back (two schedules: Decode Reuse Observe Free Observe, Decode Free Observe)
+ReuseBuffer ==
+    /\ IsCase /\ st = "done" /\ rb = "same" /\ q.a = "Decode"
+    /\ rb' = "reused"
+    /\ q' = [a |-> "ReuseBuffer"]
+    /\ Log([a |-> "ReuseBuffer"])
+    /\ UNCHANGED <<c, w, st, res, held, obs>>
+FreeBuffer ==
+    /\ IsCase /\ st = "done" /\ rb \in {"same", "reused"} /\ q.a \in {"Decode", "Observe"}
+    /\ rb' = "freed"
+    /\ q' = [a |-> "FreeBuffer"]
+    /\ Log([a |-> "FreeBuffer"])
+    /\ UNCHANGED <<c, w, st, res, held, obs>>
+Observe ==
+    /\ IsCase /\ st = "done" /\ rb # "none" /\ q.a \in {"ReuseBuffer", "FreeBuffer"}
+    /\ q' = [a |-> "Observe"]
+    /\ obs' = [type |-> res.dec.type, id |-> res.dec.id,
+               a |-> [i \in 1..Len(held) |-> [n |-> held[i].n, b |-> ReadBack(held[i]), x |-> held[i].x]]]
+    /\ Log([a |-> "Observe"])
+    /\ UNCHANGED <<c, w, st, res, rb, held>>
 
 Tamper(pos, bit, k) ==
     /\ st' = "done"
     /\ q' = [a |-> "Tamper", pos |-> pos, bit |-> bit, key |-> k]
     /\ LET x == Flip(w, pos, bit) IN res' = [dec |-> Dec(x, KeyName(c, k)), fr |-> Frame(x.c)]
     /\ Log([a |-> "Tamper", pos |-> pos, bit |-> bit, key |-> k])
-    /\ UNCHANGED <<c, w>>
+    /\ UNCHANGED <<c, w, rb, held, obs>>
 
 \* the public helpers QXmppUtils::generateHmacSha1 / generateCrc32: by definition the constructors
 HelperHmac(kl, tl) ==
@@ -354,18 +413,19 @@ HelperHmac(kl, tl) ==
     /\ q' = [a |-> "Hmac", kl |-> kl, tl |-> tl]
     /\ res' = [dec |-> [ok |-> "term", f |-> "hmac-sha1", kl |-> kl, tl |-> tl], fr |-> NoFrame]
     /\ Log([a |-> "Hmac", kl |-> kl, tl |-> tl])
-    /\ UNCHANGED <<c, w>>
+    /\ UNCHANGED <<c, w, rb, held, obs>>
 HelperCrc(tl) ==
     /\ ~IsCase /\ st = "new"
     /\ st' = "done"
     /\ q' = [a |-> "Crc", tl |-> tl]
     /\ res' = [dec |-> [ok |-> "term", f |-> "crc32", kl |-> 0, tl |-> tl], fr |-> NoFrame]
     /\ Log([a |-> "Crc", tl |-> tl])
-    /\ UNCHANGED <<c, w>>
+    /\ UNCHANGED <<c, w, rb, held, obs>>
 
 Next ==
     \/ Encode
     \/ \E k \in DecKeys : Decode(k)
+    \/ ReuseBuffer \/ FreeBuffer \/ Observe
     \/ /\ IsCase /\ st = "enc" /\ Tamperable(c)
        /\ \E pos \in 1..Len(w.c) : \E bit \in Bits(w.c[pos]) : Tamper(pos, bit, "same")
     \/ \E kl \in 0..HelperKeyMax : \E tl \in HelperTexts : HelperHmac(kl, tl)
@@ -393,7 +453,10 @@ P_RoundTrip(accepted, same) == accepted /\ same
 P_CorruptMi(accepted, fr) == accepted => (fr.st = "ok" /\ fr.mi = 0)
 P_CorruptFp(accepted, fr) == accepted => (fr.st = "ok" /\ fr.fp = 0)
 
-Queried == st = "done" /\ IsCase
+\* a decoded message's attribute values never change after decode, whatever happens to the datagram buffer
+P_Stable(readback, decoded) == readback = decoded
+
+Queried == st = "done" /\ IsCase /\ q.a \in {"Decode", "Tamper"}
 TheWire == IF q.a = "Tamper" THEN Flip(w, q.pos, q.bit) ELSE w
 TheKey  == KeyName(c, q.key)
 
@@ -420,6 +483,7 @@ CoveredFlipRejected ==
 \* because the message no longer carries MESSAGE-INTEGRITY: the reason P_CorruptMi is not "rejected")
 NoReframing ==
     (Queried /\ q.a = "Tamper" /\ q.key = "same" /\ c.klen > 0 /\ q.pos <= w.mi) => res.dec.ok # "acc"
+ValueStable == (IsCase /\ q.a = "Observe") => P_Stable(obs, Msg(c))
 \* the encoder's own output is well framed and carries what was asked for
 EncodedFrame ==
     (st = "enc") => LET fr == Frame(w.c) IN
@@ -430,6 +494,7 @@ EncodedFrame ==
 TypeOK ==
     /\ st \in {"new", "enc", "done"}
     /\ res.dec.ok \in {"none", "acc", "rej", "unk", "term"}
+    /\ rb \in {"none", "same", "reused", "freed"}
 
 View == mvars
 =============================================================================
